@@ -33,7 +33,10 @@ RULE = (
     "{1 (main alphabet), 2, 3} on one grid per family, C/T(3,2)@map and a dart grid; sequences: ONE "
     "Biot object (and stiffness / coupling objects) used for two grids in a row (same sizes / "
     "different topology; same topology / different geometry; the same grid object moved); 4 prism "
-    "grids (grid_extrusion of triangle grids: 3- and 4-node faces)"
+    "grids (grid_extrusion of triangle grids: 3- and 4-node faces); partial update: full discretize then "
+    "specified_cells / _faces / _nodes + update_discretization for every single cell, some pairs, "
+    "nodes and faces, with a per-cell varying coupling tensor: all stored matrices must equal a fresh "
+    "full discretization (1e-12) and alpha_c*div(u)*|c| must hold"
 )
 ASSUMPTIONS = [
     "all mechanical boundary faces Dirichlet with data u(x_f); constant isotropic stiffness",
@@ -146,13 +149,118 @@ def cases(tier):
     out += [{"grid": sp, "mu": mu, "lam": lam, "inverter": "python"} for sp in PRISMS for mu, lam in ml]
     out += [{"grid": PRISMS[1], "mu": 1.0, "lam": 10.0, "inverter": "python", "nsub": 2},
             {"grid": PRISMS[3], "mu": 1.0, "lam": 10.0, "inverter": "python", "eta": 0.25, "reuse": True}]
+    # partial update: full discretize, then re-discretize a proper subset (specified cells / faces /
+    # nodes, update_discretization=True) with a coupling tensor that varies from cell to cell
+    upd = [
+        ({"kind": "cart", "n": [4, 4]}, 16, None),
+        ({"kind": "tri", "n": [3, 3], "pert": [[5, [1, -1]]]}, 18, None),
+        ({"kind": "tet", "n": [1, 1, 1], "pert": [[7, [1, -1, 1]]]}, 6, []),
+        ({"kind": "cart", "n": [2, 2, 2], "map": "shear"}, 8, []),
+        ({"kind": "cart", "n": [3, 3, 3]}, 27, [0, 13, 26]),
+    ]
+    for sp, nc_, single in upd:
+        cells = range(nc_) if single is None else single
+        subsets = [["cells", [c]] for c in cells] + [["nodes", [0]], ["nodes", [4]], ["faces", [0]]]
+        if single is None:
+            subsets += [["cells", [0, nc_ - 1]], ["cells", [1, 2]], ["faces", [3]], ["faces", [0, 5]]]
+        out += [{"grid": sp, "mu": 1.0, "lam": 10.0, "inverter": "python", "update": u} for u in subsets]
     # ONE Biot object (and stiffness / coupling objects) reused for two grids
     out += [{"grid": s1, "seq": [kind, s1, s2], "mu": mu, "lam": lam, "inverter": "python"}
             for kind, s1, s2 in G.SEQ_PAIRS_2D + G.SEQ_PAIRS_3D for mu, lam in ml]
     return out
 
 
+def _run_update(case) -> Outcome:
+    """Full discretization, then a partial re-discretization of a proper subset with a coupling
+    tensor that varies from cell to cell. Oracles: (a) every stored matrix equals the one of a fresh
+    full discretization with the same parameters (1e-12 relative); (b) the divergence identity
+    alpha_c * div(u) * |c| for every cell (closed form)."""
+    import porepy as pp
+    import scipy.sparse as sps
+
+    out = Outcome()
+    spec, mu, lam = case["grid"], case["mu"], case["lam"]
+    what, idx = case["update"]
+    g = G.build(spec)
+    d, nf, nc = g.dim, g.num_faces, g.num_cells
+    bf = G.boundary_faces(g)
+    xc, xf, vol = g.cell_centers[:d].copy(), g.face_centers[:d].copy(), g.cell_volumes.copy()
+    hmin, vmax = G.h_min(g), float(g.cell_volumes.max())
+    alpha_c = 0.5 + 0.1 * np.arange(nc)
+    gname = G.name(spec)
+    gcls = f"{d}d/{spec['kind']}/update-{what}{len(idx)}"
+    base = {"grid": spec, "grid_name": gname, "mu": mu, "lam": lam, "update": case["update"], "alpha_cells": alpha_c}
+
+    def params():
+        return {"fourth_order_tensor": pp.FourthOrderTensor(mu * np.ones(nc), lam * np.ones(nc)),
+                "bc": pp.BoundaryConditionVectorial(g, bf, ["dir"] * bf.size), "inverter": "python",
+                "scalar_vector_mappings": {"var": pp.SecondOrderTensor(alpha_c.copy()), "frac": ALPHAS["frac"]}}
+
+    def flat(M):
+        res = {}
+        for k, v in M.items():
+            if isinstance(v, dict):
+                for k2, v2 in v.items():
+                    res[f"{k}[{k2}]"] = sps.csr_matrix(v2).toarray()
+            elif sps.issparse(v):
+                res[k] = v.toarray()
+        return res
+
+    try:
+        fresh = pp.initialize_data({}, KW, params())
+        pp.Biot(KW).discretize(g, fresh)
+        ref = flat(fresh[pp.DISCRETIZATION_MATRICES][KW])
+        data = pp.initialize_data({}, KW, params())
+        disc = pp.Biot(KW)
+        disc.discretize(g, data)
+        prm = data[pp.PARAMETERS][KW]
+        prm["specified_" + what] = np.array(idx, dtype=int)
+        prm["update_discretization"] = True
+        disc.discretize(g, data)
+        active = np.asarray(prm.get("active_cells", np.arange(nc)))
+        M = data[pp.DISCRETIZATION_MATRICES][KW]
+        got = flat(M)
+    except Exception as e:
+        out.violate("Biot partial update (specified_" + what + ", update_discretization) raised", error=repr(e), **base)
+        out.ev(f"{gcls}/exception")
+        return out
+    proper = active.size < nc
+    key = (gname, what, tuple(idx)) if proper else None
+    bad = None
+    for k in sorted(ref):
+        scale = max(1e-300, float(np.abs(ref[k]).max()))
+        if k not in got or got[k].shape != ref[k].shape or np.abs(got[k] - ref[k]).max() > 1e-12 * scale:
+            err = float(np.abs(got[k] - ref[k]).max()) if k in got and got[k].shape == ref[k].shape else None
+            bad = ("matrix after a partial update differs from a fresh full discretization", {"matrix": k, "max_abs_diff": err, "scale": scale})
+            break
+    if bad is None:
+        du = M[disc.displacement_divergence_matrix_key]["var"]
+        bdu = M[disc.bound_displacement_divergence_matrix_key]["var"]
+        for label, kind, a, Gm in F.affine_vector_basis(d, rotations=False):
+            uc = a[:, None] + Gm @ xc
+            uf = a[:, None] + Gm @ xf
+            bcv = np.zeros((d, nf))
+            bcv[:, bf] = uf[:, bf]
+            val = du @ uc.ravel("F") + bdu @ bcv.ravel("F")
+            exp = alpha_c * float(np.trace(Gm)) * vol
+            umax = float(max(1.0, np.abs(uc).max(), np.abs(uf).max()))
+            tol = TOL * alpha_c.max() * vmax * (float(np.abs(Gm).max()) + umax / hmin)
+            if not np.all(np.isfinite(val)) or np.abs(val - exp).max() > tol:
+                c = int(np.nanargmax(np.abs(val - exp)))
+                bad = ("after a partial update the displacement divergence differs from alpha_c*div(u)*|cell|",
+                       {"field": label, "cell": c, "observed": float(val[c]), "expected": float(exp[c]), "tol": tol})
+                break
+    cls = f"{gcls}/" + ("proper-subset" if proper else "whole-grid-active")
+    if bad is not None:
+        out.violate(bad[0], active_cells=active, **bad[1], **base)
+        cls += "/VIOLATION"
+    out.ev(cls, key)
+    return out
+
+
 def run_case(case) -> Outcome:
+    if "update" in case:
+        return _run_update(case)
     if "seq" not in case:
         return _run_single(case)
     # one Biot object (and, sizes permitting, the same stiffness / coupling objects) for both grids
